@@ -52,7 +52,8 @@ func (tag *Tag) reqproc() {
 		case r := <-tag.respchan:
 			rc := r.Rc
 			fid := r.fid
-			err := r.Rc.Type == Rerror
+			/* a request failed by the connection has no reply: it counts as refused */
+			err := rc == nil || rc.Type == Rerror
 
 			switch r.Tc.Type {
 			case Tauth:
